@@ -282,3 +282,16 @@ Section PollProofs.
            exists j, x; (split; [exact A|split; [cbn [length]; lia|intro K; apply C; cbn [length] in K; lia]]).
   Qed.
 End PollProofs.
+
+(* an id whose earlier life was forwarded by node 1 and ended is registered again: the routing table is the authority
+   (forward_now dials it); a per-node closed-tunnel guard refuses it on node 1 for ever *)
+Lemma closed_tracker_guard_refuted :
+  let c := cfg_hybrid true 30000000000 in
+  let s := ex_final c (init ex_gstr) [ORegAddr 0 ex_nodeid ex_addr1; ORegister 0 ex_rec; OLookup 1 (w_tunnel ex_rec);
+                                      ORemove 0 (w_tunnel ex_rec); OTick 1000 1000; ORegister 0 ex_rec] in
+  let closed : nat -> str -> bool := fun n t => Nat.eqb n 1 && list_eqb t (w_tunnel ex_rec) in
+  ex_forward_now c s 1 (w_tunnel ex_rec) = FDial ex_nodeid ex_addr1
+  /\ forward_with_closed_guard ex_gstr ex_enc ex_dec ex_dec ex_of_addr ex_to_addr ex_keep closed c s 1 (w_tunnel ex_rec) = FNoRoute
+  /\ forward_with_closed_guard ex_gstr ex_enc ex_dec ex_dec ex_of_addr ex_to_addr ex_keep closed c s 2 (w_tunnel ex_rec)
+     = FDial ex_nodeid ex_addr1.
+Proof. vm_compute. repeat split; reflexivity. Qed.
